@@ -16,21 +16,41 @@ import (
 // the validation kit, loaded once per process, and the enumeration of its documents.
 
 var (
-	kitOnce    sync.Once
-	kitSchemas []*ast.Schema
+	kitOnce         sync.Once
+	kitSchemas      []*ast.Schema
+	kitModelSchemas []*ast.Schema
 )
 
-func kitSchema(i int) *ast.Schema {
+func kitLoad() {
 	kitOnce.Do(func() {
 		for j, sdl := range gen.ValidSchemas {
-			s, err := gqlparser.LoadSchema(&ast.Source{Name: "kit-schema.graphql", Input: sdl})
-			if err != nil {
-				panic("validation kit schema " + string(rune('0'+j)) + " does not load: " + err.Error())
+			for k := 0; k < 2; k++ {
+				s, err := gqlparser.LoadSchema(&ast.Source{Name: "kit-schema.graphql", Input: sdl})
+				if err != nil {
+					panic("validation kit schema " + string(rune('0'+j)) + " does not load: " + err.Error())
+				}
+				if k == 0 {
+					kitSchemas = append(kitSchemas, s)
+				} else {
+					kitModelSchemas = append(kitModelSchemas, s)
+				}
 			}
-			kitSchemas = append(kitSchemas, s)
 		}
 	})
+}
+
+// kitSchema: the instance handed to the library (shared by all cases of a worker process,
+// so that state leaking into the schema shows up in later cases).
+func kitSchema(i int) *ast.Schema {
+	kitLoad()
 	return kitSchemas[i]
+}
+
+// kitModelSchema: a second instance loaded from the same text that is only ever read by
+// the reference models and never passed to the library.
+func kitModelSchema(i int) *ast.Schema {
+	kitLoad()
+	return kitModelSchemas[i]
 }
 
 type kitDoc struct {
